@@ -5,7 +5,7 @@ A script is described by a dict
   {"mods": [mod, ..] (2..4), "inj": [(kind, m, time, payload)..]}
   mod  = {"catch": 0|1, "stages": 1..3, "bud": B, "start": [prog..], "msg": [prog..], "tasks": [prog..], "end": prog}
   prog = [act..];  act = ("log", x) | ("send", far, d, x) | ("sched", d, x) | ("sleep", d) | ("shutdown",)
-                         | ("restart", d) | ("panic",) | ("quiet",)
+                         | ("restart", d) | ("panic",) | ("quiet",) | ("setcatch", 0|1)
   inj kind: 0 handle_message_on(m) | 1 add_message_onto(m.out) | 2 add_message_onto(m.far)
 Topology: ring; m.out -> (m+1).in ; m.far -> (m+1).via -> (m+2).fin.
 """
@@ -36,6 +36,8 @@ def enc_act(a):
         return [5, 0, a[1], 0]
     if k == "panic":
         return [6, 0, 0, 0]
+    if k == "setcatch":
+        return [8 if a[1] else 9, 0, 0, 0]
     return [7, 0, 0, 0]
 
 
@@ -105,9 +107,9 @@ class Cur:
 def dec_prog(v):
     out = []
     for i in range(0, len(v) - len(v) % 4, 4):
-        o, a, b, c = v[i] % 8, v[i + 1], v[i + 2], v[i + 3]
+        o, a, b, c = v[i] % 10, v[i + 1], v[i + 2], v[i + 3]
         out.append([("log", c), ("send", a % 2, b, c), ("sched", b, c), ("sleep", b), ("shutdown",), ("restart", b),
-                    ("panic",), ("quiet",)][o])
+                    ("panic",), ("quiet",), ("setcatch", 1), ("setcatch", 0)][o])
     return out
 
 
@@ -153,6 +155,7 @@ def join(hdr, ops):
 
 
 R_VAR = 18
+R_SETCATCH = 19
 
 
 def records3(out):
@@ -177,7 +180,7 @@ def records(out):
     return a, b
 
 
-NAMES = {18: "|variant|", 1: "start", 2: "msg", 3: "task", 4: "timer", 5: "end", 6: "reset", 7: "log", 8: "send", 9: "sched", 10: "shut",
+NAMES = {19: "setcatch", 18: "|variant|", 1: "start", 2: "msg", 3: "task", 4: "timer", 5: "end", 6: "reset", 7: "log", 8: "send", 9: "sched", 10: "shut",
          11: "panic", 12: "quiet", 13: "cancel", 14: "ev", 15: "err", 16: "FUEL", 17: "||"}
 
 
@@ -242,7 +245,8 @@ def gen_act(rng, k_msgs, in_task, p_ctl):
     if r < 0.80:
         return ("log", rng.randint(1, 9))
     if rng.random() < p_ctl:
-        return rng.choice([("shutdown",), ("restart", rng.choice(DELAYS)), ("restart", rng.choice(DELAYS)), ("panic",), ("quiet",)])
+        return rng.choice([("shutdown",), ("restart", rng.choice(DELAYS)), ("restart", rng.choice(DELAYS)), ("panic",), ("quiet",),
+                           ("setcatch", rng.randint(0, 1))])
     return ("log", rng.randint(10, 19))
 
 
